@@ -61,6 +61,12 @@ def plan(tier, seed):
                 continue
             for amp in ((0.0, 0.15) if quick else (0.0, 0.05, 0.15)):
                 cases.append(dict(key=f"solid/{lab}/{mem}/{mat}/amp={amp}", kind="solid", mesh=mk, member=mem, fk=fk, mat=mat, amp=amp, seed=seed, tier=tier, cost=8 if "27" in lab or "20" in lab or "10" in lab else 2))
+    # what Newton sums over SEVERAL items with scale factors: matrix = sum m_i K_i = derivative of sum m_i r_i, for every
+    # factor a caller may set (None, +-1, a general factor, exactly zero as float / int: a de-activated item)
+    for mlab, mval in (("None", None), ("1.0", 1.0), ("-1.0", -1.0), ("2.5", 2.5), ("0.0", 0.0), ("0", 0), ("1e-12", 1e-12)):
+        for order in ("scaled-last", "scaled-first"):
+            for via in ("init", "attribute"):
+                cases.append(dict(key=f"itemsum/multiplier={mlab}/{order}/{via}", kind="itemsum", mval=mval, order=order, via=via, seed=seed, tier=tier, cost=2))
     for (lab, mk, mem, fk) in MIXED_FIELDS:
         for mat in ("ThreeFieldVariation", "NearlyIncompressible", "user-full-blocks"):
             # (full non-symmetric block lists: 3D hexahedra only -- on plane-strain / axisymmetric mixed containers and with
@@ -440,6 +446,36 @@ def run(case):
         r2 = body.assemble.vector(field).toarray()
         if np.abs(r1 - r2).max() > 1e-12 * max(np.abs(r1).max(), 1e-12):
             c.bad("buffers-vector", "vector of a body with a call history differs from the vector of a fresh body at the same state (stale result buffer)", float(np.abs(r1 - r2).max()), 0)
+        return c.result(dict(case=case["key"], unknowns=int(values_of(field).size)))
+    if kind == "itemsum":
+        mesh, region, field = make_field("hexahedron", "renum", "3d", seed)
+        hm = set_state(field, mesh, 0.12, seed)
+        umA, _ = material("NeoHooke", region, 1.0)
+        umB, _ = material("tt-mooney", region, 1.0)
+        m = case["mval"]
+        a = fem.SolidBody(umA, field)
+        if case["via"] == "init":
+            b = fem.SolidBody(umB, field, multiplier=m)
+        else:
+            b = fem.SolidBody(umB, field)
+            b.assemble.multiplier = m
+        items = [a, b] if case["order"] == "scaled-last" else [b, a]
+        fd_check(c, "K", items, field, 2e-5 * hm, symmetric=True)
+        mf = 1.0 if m is None else float(m)
+        Ka = fem.SolidBody(umA, field).assemble.matrix(field).toarray()
+        Kb = fem.SolidBody(umB, field).assemble.matrix(field).toarray()
+        ra = fem.SolidBody(umA, field).assemble.vector(field).toarray()[:, 0]
+        rb = fem.SolidBody(umB, field).assemble.vector(field).toarray()[:, 0]
+        K = fem.tools.jac(items, field).toarray()
+        r = np.asarray(fem.tools.fun(items, field), float)
+        c.trans += 6
+        c.traces += 2
+        sc = np.abs(Ka).max() + np.abs(Kb).max()
+        if np.abs(K - (Ka + mf * Kb)).max() > 1e-12 * sc:
+            c.bad("sum/matrix", "matrix summed over the items = K_a + m K_b with fresh item-level matrices", float(np.abs(K - (Ka + mf * Kb)).max() / sc), 0)
+        if np.abs(r - (ra + mf * rb)).max() > 1e-12 * (np.abs(ra).max() + np.abs(rb).max()):
+            c.bad("sum/vector", "vector summed over the items = r_a + m r_b with fresh item-level vectors", float(np.abs(r - (ra + mf * rb)).max()), 0)
+        c.outcomes.add("item-deactivated" if mf == 0 else "item-scaled")
         return c.result(dict(case=case["key"], unknowns=int(values_of(field).size)))
     if kind == "mixed":
         mesh, region, field = make_field(case["mesh"], case["member"], case["fk"], seed, mixed=True)
